@@ -35,8 +35,10 @@ def random_cfgs(prop, tier, seed):
                     cfgs["rnd-%s/U-wrapper" % sid] = dict(base, pkg=sid + "uw", flags=[],
                                                            attrs=dict(Compressed=False, Wrapper=True))
             else:
-                cfgs["rnd-%s/C-paths" % sid] = dict(base, pkg=sid + "cp", pathstructs=True,
-                                                     flags=["-compress_paths", "-generate_simple_unions", "-ignore_shadow_schema_paths"],
+                pflags = ["-compress_paths", "-generate_simple_unions", "-ignore_shadow_schema_paths"]
+                if prop == "C29" and i % 2 == 1:
+                    pflags.append("-list_builder_key_threshold=2")
+                cfgs["rnd-%s/C-paths" % sid] = dict(base, pkg=sid + "cp", pathstructs=True, flags=pflags,
                                                      attrs=dict(Compressed=True, Wrapper=False, Shadow=True))
                 if i % 2 == 0:
                     cfgs["rnd-%s/C-opstate" % sid] = dict(base, pkg=sid + "co",
@@ -54,6 +56,12 @@ def prepare(prop, tier, seed, r):
     cfgs["vtoc/C-paths"] = dict(pkg="vtocp", files=["openconfig-vtoc.yang"], pathstructs=True,
                                 flags=["-compress_paths", "-generate_simple_unions", "-ignore_shadow_schema_paths"],
                                 attrs=dict(Compressed=True, Wrapper=False, Shadow=True))
+    if prop == "C29":
+        # builder-style key API (lists with >= 2 keys get <List>Any() + With<Key>())
+        cfgs["vtoc/C-paths-builder"] = dict(pkg="vtocpb", files=["openconfig-vtoc.yang"], pathstructs=True,
+                                            flags=["-compress_paths", "-generate_simple_unions", "-ignore_shadow_schema_paths",
+                                                   "-list_builder_key_threshold=2"],
+                                            attrs=dict(Compressed=True, Wrapper=False, Shadow=True))
     cfgs.update(random_cfgs(prop, tier, seed))
     gen, ok = {}, {}
     for name, spec in cfgs.items():
